@@ -541,6 +541,11 @@ func wireValueIn(t *rapid.T, s ref.Schema, ts spec.TypeSpec, nullable bool) spec
 		v.B = rapid.Bool().Draw(t, "b")
 	case "int", "long":
 		if ts.K == "time" {
+			if !nullable && s.LogicalType != "" && Uniform(t, "zeroTime", 12) == 0 {
+				// the zero time.Time where no union offers a null branch: an ordinary
+				// value of date / timestamp-millis / timestamp-micros (year 1)
+				return spec.ValueSpec{TZero: true}
+			}
 			unit := int64(1)
 			stored := timeInt(t, s)
 			var ns int64
